@@ -26,7 +26,7 @@ echo "demo with change:    $demo_with"
 cd "$VERIF_ROOT"
 res=$(tools/run_mutant.sh "$P" "$@" 2>&1)
 echo "$res"
-dir="$VERIF_ROOT/seeded/$ID-$V"; mkdir -p "$dir"
+dir="$VERIF_ROOT/${SEED_DIR:-seeded}/$ID-$V"; mkdir -p "$dir"
 cp "$P" "$dir/patch.diff"; cp "$D" "$dir/demo.rs"; cp "$WT/SEED/notes.md" "$dir/notes.md"
 python3 - "$dir" "$ID" "$V" "$demo_without" "$demo_with" "$suite" "$res" <<'PY'
 import json,sys
